@@ -285,7 +285,9 @@ func (d *Dispatcher) doMaintenance() {
 		d.routeGroupsSlice[i].groups.Range(func(_, el any) bool {
 			ag := el.(*aggrGroup)
 			if ag.destroyed() {
+				verifYield("maintenance:destroyed", ag)
 				ag.stop()
+				verifYield("maintenance:stopped", ag)
 				deleted := d.routeGroupsSlice[i].groups.CompareAndDelete(ag.fingerprint(), ag)
 				if deleted {
 					// TODO(ultrotter, siavash):
@@ -457,6 +459,7 @@ func (d *Dispatcher) groupAlert(ctx context.Context, alert *alert.Alert, route *
 	fp := groupLabels.Fingerprint()
 
 	el, loaded := d.routeGroupsSlice[route.Idx].groups.Load(fp)
+	verifYield("groupAlert:loaded", alert, route)
 	if loaded {
 		ag := el.(*aggrGroup)
 		// Try to insert into the aggrgroup.
@@ -498,6 +501,7 @@ func (d *Dispatcher) groupAlert(ctx context.Context, alert *alert.Alert, route *
 	for {
 		if loaded {
 			// Try to store the new group in the map. If another goroutine has already created the same group, use the existing one.
+			verifYield("groupAlert:before-cas", alert, route)
 			swapped := d.routeGroupsSlice[route.Idx].groups.CompareAndSwap(fp, el, ag)
 			if swapped {
 				// Since we swapped the new group in, we need to cancel the old one,
@@ -508,6 +512,7 @@ func (d *Dispatcher) groupAlert(ctx context.Context, alert *alert.Alert, route *
 			}
 			loaded = false
 		} else {
+			verifYield("groupAlert:before-loadorstore", alert, route)
 			el, loaded = d.routeGroupsSlice[route.Idx].groups.LoadOrStore(fp, ag)
 			if !loaded {
 				d.routeGroupsSlice[route.Idx].groupsLen.Add(1)
@@ -524,6 +529,7 @@ func (d *Dispatcher) groupAlert(ctx context.Context, alert *alert.Alert, route *
 			if agExisting.insert(ctx, alert) {
 				return // if we inserted we return to avoid incrementing the aggrgroup count and starting the group.
 			}
+			verifYield("groupAlert:insert-existing-failed", alert, route)
 		}
 
 		// If we failed to swap, it means another goroutine has created/modified the group
